@@ -393,21 +393,32 @@ func checkMacroBudget(c *Ctx) {
 				r.Check(k == 0, rule, key+"=const", p.IPos(in), "reset to 0", "the typed-key allowance is set to a non-zero constant")
 				return
 			}
-			okGrow := false
+			// typed += len(x) where x is what a terminal read returned, possibly meta-converted:
+			// every leaf of x's backward slice is the result of readInputFiltered (the slice follows
+			// the parameter of an unexported helper to its callers' arguments)
+			okGrow, reads := false, false
 			if bo, isBo := st.Val.(*ssa.BinOp); isBo && bo.Op == token.ADD && isLoadOf(bo.X, typedFld) {
 				if cl, isCall := bo.Y.(*ssa.Call); isCall {
 					if b, isB := cl.Call.Value.(*ssa.Builtin); isB && b.Name() == "len" {
 						okGrow = true
+						leaves := backSlice(cl.Call.Args[0], &SliceOpts{P: p, IsSource: func(v ssa.Value) bool {
+							return isCallNamed(v, "(*core.Keys).readInputFiltered")
+						}, Through: func(c *ssa.Call) []ssa.Value {
+							if calleeName(c) == "strutil.ConvertMeta" {
+								return c.Call.Args
+							}
+							return nil
+						}})
+						reads = len(leaves) > 0
+						for _, l := range leaves {
+							if l.Kind != LeafSource {
+								reads = false
+							}
+						}
 					}
 				}
 			}
-			reads := false
-			eachInstr(f, func(x ssa.Instruction) {
-				if isCallTo(x, "(*core.Keys).readInputFiltered", "(*os.File).Read") {
-					reads = true
-				}
-			})
-			r.Check(okGrow && reads, rule, key+"+=len", p.IPos(in), "grows by the length of a terminal read, in a function that reads the terminal", "the typed-key allowance grows by something other than the length of what a terminal read returned (or outside the functions that read the terminal): a macro that runs itself can raise its own budget")
+			r.Check(okGrow && reads, rule, key+"+=len", p.IPos(in), "grows by the length of what a terminal read returned", "the typed-key allowance grows by something other than the length of what a terminal read returned: a macro that runs itself can raise its own budget")
 		})
 	}
 }
